@@ -21,6 +21,8 @@ def run(chk, facts, tier):
     chk.rule('handler-preconditions', 'every protocol effect (state mutation, output write) of a pairing handler is control dependent on in_size == specified length and state() == specified state', floor=8)
     chk.rule('request-validation', 'each of the three Pairing Request handlers answers Invalid Parameters when the IO capability exceeds the last defined value, the OOB flag has other bits than bit 0, the maximum key size is outside 7..16, or reserved bits (0xf0) are set in either key distribution field - each field tested on its own', floor=3)
     chk.rule('errors-reset', 'every value return of a handler, and every error_response call in any security manager function that holds the connection state, is the member error_response(code, output, out_size, state); that member resets the pairing state to idle', floor=9)
+    chk.rule('stored-ea-is-of-this-pairing', 'the "central\'s DHKey check was received and stored" flag (remote_dhkey_check_received_, consulted when the user answers a numeric comparison) is cleared without condition in the function that '
+             'enters lesc_pairing_random_exchanged, the only state in which it can be set: an Ea stored in an aborted pairing is never taken for the DHKey check of the next one', floor=2)
     chk.rule('srand-after-confirm', 'legacy_handle_pairing_random copies srand to the output and completes pairing only if c1(tk, mrand, p1, p2) == stored mconfirm', floor=1)
     chk.rule('dhkey-after-ea', 'the DHKey check Eb is written and lesc_pairing_completed() is called only behind the comparison of the computed Ea with the received one', floor=2)
     smo = facts.enum('bluetoe::details::sm_opcodes')
@@ -218,3 +220,17 @@ def run(chk, facts, tier):
             what = 'lesc_pairing_completed()' if s.d.get('call') else 'output[0] = pairing_dhkey_check'
             chk.instance('dhkey-after-ea', fn, '%s in %s' % (what, fn.name), ok,
                          '' if ok else 'the peripheral sends its DHKey check / completes LESC pairing on a path that never compared the central\'s DHKey check Ea', node=s, key='%s in %s' % (what, fn.name))
+    for cls in ('lesc_security_connection_data', 'security_connection_data'):
+        fns = [f for f in facts.functions if f.q.startswith('bluetoe::details::%s::' % cls) and f.kind in ('pattern', 'plain')]
+        enter = [f for f in fns if any(c.args() and strip_casts(c.args()[0]).n == 'lesc_pairing_random_exchanged' for c in f.body.calls('state'))]
+        if not chk.require(len({(f.file, f.line) for f in enter}) == 1, '%s: expected one function entering lesc_pairing_random_exchanged' % cls):
+            continue
+        fn = enter[0]
+        clr = [st for tgt, op, val, st in stores(fn.body) if target_name(tgt) == 'remote_dhkey_check_received_' and op == '=' and cval(val) == 0]
+        ok = len(clr) >= 1 and not any(fn.guards(st) for st in clr[:1])
+        sets = [(f, st) for f in fns for tgt, op, val, st in stores(f.body) if target_name(tgt) == 'remote_dhkey_check_received_' and not (op == '=' and cval(val) == 0)]
+        ok2 = len({(f.file, f.line) for f, st in sets}) == 1 and all(f.body.calls('copy') or f.body.calls('copy_n') for f, st in sets)
+        chk.instance('stored-ea-is-of-this-pairing', fn, '%s::%s clears remote_dhkey_check_received_; set only together with the stored value' % (cls, fn.name), ok and ok2,
+                     '' if ok and ok2 else ('the flag survives a failed pairing: in the next pairing the user\'s confirmation lets the peripheral verify (and answer) the DHKey check stored by the previous attempt, before the central sent one'
+                                            if not ok else 'the flag is set apart from storing the received value'), key=cls)
+
